@@ -81,3 +81,23 @@ Fixpoint run_reconfigs (use_vpc : bool) (replies : list (exc (list Z))) (s : ast
   | r :: t => let '(x, s1) := reconfigure_nodes use_vpc r s in
               let '(xs, s2) := run_reconfigs use_vpc t s1 in (x :: xs, s2)
   end.
+
+(* ---- histories that also contain failover bookkeeping between two reads of the configuration (HashClient's own
+   _mark_failed_server and remove_server, Model/Hash.v, reduced to the key sets of the two tables) ---- *)
+Inductive astep :=
+| AReconf (reply : exc (list Z))
+| AFail (sv : server)          (* _mark_failed_server(sv) while retries are left: sv gets a failure record *)
+| AEvict (sv : server).        (* remove_server(sv): the failure record goes, sv is marked dead and leaves the rotation *)
+Definition a_fail (sv : server) (s : astate) : astate :=
+  {| as_nodes := as_nodes s; as_clients := as_clients s; as_failed := add_once (as_failed s) sv; as_dead := as_dead s; as_closed := as_closed s |}.
+Definition a_evict (sv : server) (s : astate) : astate :=
+  {| as_nodes := sv_remove (as_nodes s) sv; as_clients := as_clients s; as_failed := sv_remove (as_failed s) sv;
+     as_dead := add_once (as_dead s) sv; as_closed := as_closed s |}.
+Fixpoint run_asteps (use_vpc : bool) (steps : list astep) (s : astate) : list (exc unit) * astate :=
+  match steps with
+  | [] => ([], s)
+  | AReconf r :: t => let '(x, s1) := reconfigure_nodes use_vpc r s in
+                      let '(xs, s2) := run_asteps use_vpc t s1 in (x :: xs, s2)
+  | AFail sv :: t => run_asteps use_vpc t (a_fail sv s)
+  | AEvict sv :: t => run_asteps use_vpc t (a_evict sv s)
+  end.
